@@ -16,7 +16,7 @@ func init() {
 		Explanation: "R1 case discipline: every value read from Token.Raw/Token.AsString that takes part in a decision of the parser goes through char.EqualFold (Token.IsKeywordLike/IsIdent, whose shape is checked); a direct ==, switch or map lookup of the spelling against a constant containing a letter is a violation; user-visible values are stored without case conversion; reserved words are matched on Kind, which the lexer derives through char.ToUpper (C14/R1). " +
 			"R2 trivia and position non-interference: forward taint analysis over the SSA of package memefish from Token.Space, Token.Comments and every token.Pos-typed value (Token.Pos/End, node Pos()/End(), Lexer.pos) to the sinks 'branch condition in a parser function' and 'store into a non-position field of an ast node' (BadNode.Tokens excepted; token.Pos.Invalid() is the one sanitiser: it separates 'absent' from any real offset). There must be no flow: comments, whitespace and offsets cannot change the tree. " +
 			"R3 keyword-class consistency (C08/R2, shared). Does not decide: the lexer side (that re-spacing never changes token boundaries).",
-		Rules: []ruleFn{ruleC16R1, ruleC16R2, ruleC08R2, ruleC14R8, ruleC14R5, ruleC14R7},
+		Rules: []ruleFn{ruleC16R1, ruleC16R2, ruleC08R2, ruleC14R8, ruleC14R5, ruleC14R7, ruleC16R3},
 	})
 }
 
